@@ -1,6 +1,7 @@
 package chanx
 
 import (
+	"os"
 	"context"
 	"fmt"
 	"time"
@@ -39,6 +40,7 @@ type c17Params struct {
 	LifetimeMs uint32 `json:"lifetime_ms"`
 	Token      int    `json:"token"`     // which token's keys protect the injected chunk (0 = first)
 	InjectMs   int    `json:"inject_ms"` // virtual time of the injection
+	RequestMs  uint32 `json:"requested_lifetime_ms"` // >0: the client asks for this lifetime and the server revises it down to lifetime_ms
 }
 
 type c17Obs struct {
@@ -49,6 +51,7 @@ type c17Obs struct {
 	tokens     int
 	done       bool
 	lateErr    string
+	noEnv      bool // the revising server could not be arranged on this tree
 }
 
 var c17obs *c17Obs
@@ -63,6 +66,15 @@ func c17Body(p c17Params) func() {
 			mode = ua.MessageSecurityModeSignAndEncrypt
 		}
 		ccfg, scfg := securedCfgs(ua.SecurityPolicyURIBasic256Sha256, mode, p.LifetimeMs, 10*time.Second)
+		uasc.VerifEnvReviseLifetime = nil
+		if p.RequestMs > 0 {
+			if os.Getenv("VERIF_ENV_REVISE") != "installed" {
+				obs.noEnv = true
+				return
+			}
+			ccfg.Lifetime = p.RequestMs
+			uasc.VerifEnvReviseLifetime = func(uint32) uint32 { return p.LifetimeMs }
+		}
 		srv := &echoServer{cfg: scfg}
 		_, errch := pair(bg, srv, ccfg)
 		injected := false
@@ -106,6 +118,9 @@ func c17Body(p c17Params) func() {
 
 func c17Check(p c17Params) func(x *vrt.Exec) (string, string, string) {
 	tag := fmt.Sprintf("c17/%s/lifetime=%dms/token=%d", p.Mode, p.LifetimeMs, p.Token)
+	if p.RequestMs > 0 {
+		tag += fmt.Sprintf("/revised-down-from=%dms", p.RequestMs)
+	}
 	life := time.Duration(p.LifetimeMs) * time.Millisecond
 	return func(x *vrt.Exec) (string, string, string) {
 		if out, sig, detail, failed := fail(x); failed {
@@ -117,6 +132,9 @@ func c17Check(p c17Params) func(x *vrt.Exec) (string, string, string) {
 		o := c17obs
 		at := time.Duration(p.InjectMs) * time.Millisecond
 		detail := fmt.Sprintf("injection at %v of a fresh chunk protected with the keys of token %d; server installed new tokens at %v; rejected=%v (%s) inject error=%q", at, p.Token, o.renewalsAt, o.rejected, o.rejectErr, o.injectErr)
+		if o.noEnv {
+			return "no-revising-server", "", ""
+		}
 		if !o.done {
 			return "unfinished", tag + "/scenario-did-not-finish", detail
 		}
@@ -153,7 +171,7 @@ func c17Scenarios(thorough bool) []driver.Scenario {
 	var out []driver.Scenario
 	add := func(p c17Params) {
 		out = append(out, driver.Scenario{
-			Name:   fmt.Sprintf("c17/%s/lifetime_ms=%d/token=%d/inject_ms=%d", p.Mode, p.LifetimeMs, p.Token, p.InjectMs),
+			Name:   fmt.Sprintf("c17/%s/lifetime_ms=%d/token=%d/inject_ms=%d/requested_ms=%d", p.Mode, p.LifetimeMs, p.Token, p.InjectMs, p.RequestMs),
 			Params: p, Cfg: vrt.Config{Horizon: int64(time.Hour), MaxSteps: 40000},
 			Body: c17Body(p), Check: c17Check(p), Sequential: true,
 		})
@@ -173,6 +191,10 @@ func c17Scenarios(thorough bool) []driver.Scenario {
 			}
 			for _, inj := range []int{L * 110 / 100, L * 2, L*2 + 160 + L/4, L * 3, L * 4} {
 				add(c17Params{Mode: m, LifetimeMs: l, Token: 1, InjectMs: inj})
+			}
+			// the server grants less than the client asked for: the granted lifetime is the one that counts
+			for _, inj := range []int{L * 110 / 100, L*125/100 + 160, L * 150 / 100, L * 3, L * 6} {
+				add(c17Params{Mode: m, LifetimeMs: l, Token: 0, InjectMs: inj, RequestMs: 4 * l})
 			}
 		}
 	}
